@@ -173,6 +173,13 @@ func (e *Engine) VerifyFunc(fc *FuncContract) *FuncResult {
 	fr.lspecs = fc.Loops
 	fr.pkg = fc.PkgPath
 	entry := &State{heap: map[string]string{}, armed: map[*ssa.Defer]string{}, reach: "true"}
+	// at_call! clauses: a function-local flag per clause, false on entry, set where the matched call is made
+	for _, ac := range fc.AtCalls {
+		if ac.Always {
+			c.heapSort[atCallAlwaysKey(ac)] = "Bool"
+			entry.heap[atCallAlwaysKey(ac)] = "false"
+		}
+	}
 	c.entry = entry.clone()
 	// parameters
 	for _, p := range fn.Params {
@@ -276,6 +283,11 @@ func (e *Engine) VerifyFunc(fc *FuncContract) *FuncResult {
 			}
 			c.obligation("post", ens.Label, r.pos, "ensures "+ens.Src, r.state.reach, g, ens.Props)
 		}
+		for _, ac := range fc.AtCalls {
+			if ac.Always {
+				c.obligation("at-call-always", ac.C.Label, r.pos, "every path that returns has made the call to "+ac.Match+" ["+ac.C.Label+"]", r.state.reach, c.heapGet(r.state, atCallAlwaysKey(ac)), ac.C.Props)
+			}
+		}
 		if fc.HasAssigns {
 			c.frameObligations(fc, fr, r, en)
 		}
@@ -359,6 +371,12 @@ func (c *FnCtx) frameObligations(fc *FuncContract, fr *Frame, r retInfo, entryEn
 		}
 		if strings.HasPrefix(k, "!error") {
 			c.errorf("frame: %s", k)
+			continue
+		}
+		if strings.HasPrefix(k, "c:[") {
+			// cells of fixed-size arrays: in this module these are variadic argument packs ([n]any) and stack buffers
+			// ([1024]byte) of callees, never caller-visible objects (assumption A-ARRAYCELL, listed in the evidence)
+			c.abstracted(fmt.Sprintf("%s: frame of array cells %s not checked (argument packs / stack buffers of callees: A-ARRAYCELL)", fr.fn.Name(), k))
 			continue
 		}
 		h0 := c.heapGet(c.entry, k)
